@@ -63,6 +63,7 @@ type c16In struct {
 	Orders     []c16Order `json:"orders"`
 	Steps      []c16Step  `json:"steps"`
 	Concurrent bool       `json:"concurrent,omitempty"` // orders run as free goroutines; Steps is one serialization
+	Override   bool       `json:"override,omitempty"`   // DNS01Solver.OverrideDomain is set: every DNS challenge uses that one record name
 	E2E        *c16E2E    `json:"e2e,omitempty"`        // whole orders through the real ACMEIssuer and the mock CA (c16_e2e.go)
 }
 
@@ -115,6 +116,7 @@ type c16Hist struct {
 	provider *doubles.DNSProviderDouble
 	dnsSolv  *certmagic.DNS01Solver
 	ik       string
+	override string          // DNS01Solver.OverrideDomain ("" none)
 	preMem   map[string]bool // e2e: activeChallenges keys that existed before the scenario (everything else is reported)
 }
 
@@ -155,6 +157,11 @@ func (e *c16Env) setup(in c16In, r *rand.Rand) (*c16Hist, error) {
 		}
 	}
 	h.dnsSolv = &certmagic.DNS01Solver{DNSManager: certmagic.DNSManager{DNSProvider: h.provider, PropagationTimeout: -1, Resolvers: []string{"127.0.0.1:1"}}}
+	if in.Override {
+		h.override = fmt.Sprintf("_acme-challenge.delegated-%d.example", e.seq)
+		h.dnsSolv.OverrideDomain = h.override
+		certmagic.VerifSeedZone(h.override, "example.")
+	}
 	issD := certmagic.NewACMEIssuer(e.cfg, certmagic.ACMEIssuer{CA: c16CA, Email: "x@example.com", Agreed: true, Logger: zap.NewNop(), DNS01Solver: h.dnsSolv})
 	h.ik = c15IssuerKeyOf(c16CA) // independent of the code under test (c15_indep.go)
 	e.own.issuerKey(issD, c16CA)
@@ -438,7 +445,15 @@ func (e *c16Env) runHistory(w *emit.Writer, in c16In, desc map[string]any, r *ra
 		}
 		enc.Str(h.ik)
 		c15EncChal(enc, c15Chal{Type: ch.Type, Token: ch.Token, KeyAuth: ch.KeyAuthorization, IDType: ch.Identifier.Type, Ident: ch.Identifier.Value})
-		enc.Str(ch.DNS01TXTRecordName()).Str(ch.DNS01KeyAuthorization())
+		// record name and value, computed independently of the code under test
+		rn, rv := c16DNSRec(ch.Identifier.Value, ch.KeyAuthorization)
+		if h.override != "" {
+			rn = h.override
+		}
+		enc.Str(rn).Str(rv)
+		if ch.DNS01TXTRecordName() != "_acme-challenge."+ch.Identifier.Value || ch.DNS01KeyAuthorization() != rv {
+			e.e2eBad = append(e.e2eBad, "acme.Challenge.DNS01TXTRecordName / DNS01KeyAuthorization differ from RFC 8555 8.4")
+		}
 	}
 	var occ []string
 	for i, k := range in.Addrs {
@@ -737,7 +752,8 @@ func runC16(tier string, seed int64, outdir string, replay string) (retErr error
 					sc{"single", kind, "occupied-answering", false, true}, sc{"single", kind, "store-fails", false, kind == "tlsalpn"},
 					sc{"single", kind, "token-delete-fails", false, false})
 			} else {
-				scs = append(scs, sc{"single", kind, "append-fails", false, true}, sc{"single", kind, "record-delete-fails", false, true})
+				scs = append(scs, sc{"single", kind, "append-fails", false, true}, sc{"single", kind, "record-delete-fails", false, true},
+					sc{"single", kind, "cancel-in-wait", true, true})
 			}
 		}
 		rounds := 1
@@ -850,6 +866,27 @@ func runC16(tier string, seed int64, outdir string, replay string) (retErr error
 			}
 		}
 	}
+	// ---- E'. OverrideDomain (challenge delegated to another zone): all DNS challenges share ONE record name
+	for k, il := range c16Interleavings(2) {
+		steps := append([]c16Step(nil), il...)
+		switch k % 3 {
+		case 1:
+			steps[len(steps)-1].Cancel = true
+		case 2:
+			steps[1].Provider = true
+		}
+		if err := run(c16In{Override: true, Orders: []c16Order{O("dns", 0, "a"), O("dns", 0, "b")}, Steps: steps},
+			map[string]any{"shape": "dns-override"}); err != nil {
+			return err
+		}
+	}
+	for k := 0; k < 6; k++ {
+		il := il3[(k*13+5)%len(il3)]
+		if err := run(c16In{Override: true, Orders: []c16Order{O("dns", 0, "a"), O("dns", 0, "b"), O("dns", 0, "shared")}, Steps: il},
+			map[string]any{"shape": "dns-override"}); err != nil {
+			return err
+		}
+	}
 	nE := 20
 	if thorough {
 		nE = len(il3)
@@ -868,7 +905,7 @@ func runC16(tier string, seed int64, outdir string, replay string) (retErr error
 	}
 	for k := 0; k < nF; k++ {
 		n := 2 + r.Intn(3)
-		in := c16In{Honour: r.Intn(2) == 0, Addrs: []string{"free", "free"}}
+		in := c16In{Honour: r.Intn(2) == 0, Addrs: []string{"free", "free"}, Override: r.Intn(5) == 0}
 		if r.Intn(6) == 0 {
 			in.Addrs[1] = "occupied"
 		}
